@@ -95,6 +95,11 @@ def decorate(M, snap, sym_lines=False, sym_names=False, text=''):
             hi = toks[i + 1].v[0][TOK_LINE] if i + 1 < len(toks) else orig + 1
             lo = lo if isinstance(lo, int) else orig
             hi = hi if isinstance(hi, int) else orig
+            lc = consts['LINE_COMMENT']
+            if i > 0 and toks[i - 1].v[0][TOK_TYPE] == lc:
+                lo = min(lo + 1, orig)      # a line comment ends its line: nothing follows it there
+            if bt[TOK_TYPE] == lc and i + 1 < len(toks):
+                hi = max(hi - 1, orig)
             info['lines'][i] = (L, orig)
             asm.append(L >= lo)
             asm.append(L <= max(hi, lo))
@@ -343,7 +348,10 @@ def c12_text(t, dump, tier):
         outs = GoMap()
         for g in ('lua', 'rust', 'go', 'java', 'python', 'cpp'):
             outs.set(go_str(g), go_str('/out/' + g))
-        err = M.call(MOD + '/cmd.Compile', [go_str('in.dsl'), outs])
+        try:
+            err = M.call(MOD + '/cmd.Compile', [go_str('in.dsl'), outs])
+        except GoPanic:
+            err = 'PANIC'            # the crash itself is C11's subject; whether the offence was diagnosed is still decided below
         return errs, err, list(M.effects), ''.join(M.stdout)
     try:
         ctl, paths = explore([], visit, 64)
@@ -360,7 +368,7 @@ def c12_text(t, dump, tier):
             if errs:
                 res.append(BFinding('C12', 'visit', t.tag, 'diag-spurious', 'well-formed text rejected: %s' % [to_pystr(m) if isinstance(m, str) else '?' for _, m in errs][:2],
                                     {'text': t.text}))
-            elif cerr is not None:
+            elif cerr is not None and cerr != 'PANIC':
                 res.append(BFinding('C12', 'cmd:Compile', t.tag, 'compile-error', 'well-formed text: Compile returns %s' % symgo.err_text(holder['M'], cerr), {'text': t.text}))
             continue
         # ill-formed: every listed fault needs a diagnostic on a line of the offending declaration, for EVERY line layout
@@ -386,6 +394,8 @@ def c12_text(t, dump, tier):
             elif v.status == 'unknown':
                 stats['inconclusive'].append('solver unknown')
         # refusal: error returned, nothing written
+        if cerr == 'PANIC':
+            continue
         if cerr is None:
             res.append(BFinding('C12', 'cmd:Compile', t.tag, 'no-refusal', 'diagnostics exist but Compile returns nil', {'text': t.text}))
         if any(e[0] in ('WriteFile', 'Create', 'Write', 'MkdirAll') for e in effects):
@@ -555,6 +565,7 @@ def c14_text(t, dump, tier):
         return res, stats
     prog = symgo.repo_prog()
     frame_breakers = {}
+    model_breakers = set()
     alone = {}
     for g in GENS:
         try:
@@ -563,7 +574,13 @@ def c14_text(t, dump, tier):
             m = M.call(PARSER + '.VerifVisit', [snap.tree])
             if syntax_errors(M, m):
                 return res, stats
+            # package-level state of the repository and of the libraries it calls is part of the frame: globals are
+            # created on first touch by the engine, so touch every declared one before the snapshot
+            for gd in prog.D['globals']:
+                if not gd['id'].endswith('init$guard'):
+                    M.gptr(gd['id'], gd['t'])
             cells = reachable_cells(M, [m] + [g for name, g in sorted(M.globals.items()) if not name.endswith('init$guard')])
+            model_cells = set(reachable_cells(M, [m]))
             before = snapshot_values(cells)
             r = M.call(PARSER + '.VerifGenerate', [go_str(g), m])
             alone[g] = filemap_to_py(M, r[0])
@@ -573,6 +590,8 @@ def c14_text(t, dump, tier):
             if changed:
                 tags = sorted(set(describe_cell(M, cells[k], before[k], after[k]) for k in changed))
                 frame_breakers[g] = tags
+                if any(k in model_cells for k in changed):
+                    model_breakers.add(g)
         except GoPanic:
             continue
         except Unsupported as u:
@@ -599,7 +618,8 @@ def c14_text(t, dump, tier):
                 res.append(BFinding('C14', '%s>%s' % (g1, g2), t.tag, 'interference:' + ';'.join(tags)[:100],
                                     'output of %s differs when %s ran first on the same model (files %s); %s rewrote %s' % (g2, g1, names[:3], g1, tags),
                                     {'text': t.text, 'first': g1, 'second': g2}))
-        if not hit:
+        if not hit and g1 in model_breakers:
+            # (a change confined to package-level state that no other generator's output depends on for this text is not a violation)
             res.append(BFinding('C14', g1, t.tag, 'frame:' + ';'.join(tags)[:100],
                                 'generator %s modifies the parsed model (%s); no other generator\'s output changes for this text' % (g1, tags), {'text': t.text, 'first': g1}))
     return res, stats
@@ -609,6 +629,8 @@ def describe_cell(M, cell, before, after):
     if isinstance(cell, GoMap):
         return 'map'
     tag = getattr(cell, 'tag', None) or ''
+    if tag.startswith('global:'):
+        return 'package state ' + tag[7:].split('/')[-1]
     if isinstance(before, list) and isinstance(after, list) and len(before) == len(after):
         idx = [i for i, (a, b) in enumerate(zip(before, after)) if a != b]
         # try to name the struct by its shape
